@@ -71,7 +71,7 @@ class CallMixin:
                             return VFunc("module", m2 + "." + n2)
                         except FileNotFoundError:
                             pass
-                if n2 in BUILTIN_NAMES or (m2, n2) in (("math", "ceil"), ("math", "sqrt"), ("math", "floor"), ("typing", "cast"), ("time", "time"), ("random", "randint"), ("operator", "itemgetter"), ("functools", "lru_cache")):
+                if n2 in BUILTIN_NAMES or (m2, n2) in (("math", "ceil"), ("math", "sqrt"), ("math", "floor"), ("typing", "cast"), ("time", "time"), ("random", "randint"), ("operator", "itemgetter"), ("functools", "lru_cache"), ("itertools", "zip_longest")):
                     return VFunc("builtin", n2)
                 return VFunc("external", f"{m2}.{n2}")
         if name in BUILTIN_NAMES:
